@@ -34,7 +34,7 @@ CLAIMED = {
 QW = "Trusts the simulated API server/informer/work-queue model (DESIGN.md 2.1, 5); the job controller is abstracted by an environment transition that writes the status computed by the real jobcontroller.UpdateJobStatusFromTaskRefs; <= 3-4 Jobs on one JobConfig; deviation budgets per scenario; violations that need an applied-but-failed start write are a recorded known finding (F8)."
 CLAIMED.update({
  "C01": dict(level="model_checking", tech="exhaustive enumeration of all tick-timing sequences (6 tick lengths, depth 5/6-7) of the real CronWorker+Schedule+heap under a fake clock, compared tick by tick with a brute-force per-second reference stream and a heap-consistency oracle",
-   text="For 13 populations of JobConfigs (second/minute granular, multi-expression, hashed, point-in-time, never-matching, 5 timezones incl. config default, notBefore/notAfter on and off matches, 8 JobConfigs colliding in one tick, caps 1/3/5, start instants on/off a match) every sequence of tick delays from {0.25s,1s,1.5s,5s,61s,400s} up to the depth bound is executed on the real CronWorker.Work; every tick's requests must equal the reference (independent field matcher, cursor, cap) and the heap dump must be ordered, index-consistent and hold each JobConfig at its reference next-due time.",
+   text="For 16 populations of JobConfigs (second/minute granular, multi-expression, hashed, point-in-time, never-matching, 5 timezones incl. config default, notBefore/notAfter on and off matches, 8 JobConfigs colliding in one tick, one name in two namespaces, caps 1/3/5, start instants on/off a match) every sequence of tick delays from {0.25s,1s,1.5s,5s,61s,400s} up to the depth bound is executed on the real CronWorker.Work; every tick's requests must equal the reference (independent field matcher, cursor, cap) and the heap dump must be ordered, index-consistent and hold each JobConfig at its reference next-due time.",
    note="Reference matcher is independent for numeric/step/list/range fields; hashed (H) fields and next-due times beyond 10 minutes use the cron library as trusted matcher. Finite alphabet of expressions, timezones and tick lengths; no DST transition instants.", ref="4 C01"),
  "C03": dict(level="model_checking", tech=MC + " (replay mode; CronWorker.Work is the tick transition)",
    text="BFS over every pair (quick) / triple (thorough) of JobConfig life-cycle events (create, setexpr, disable, enable, add notBefore, drop schedule, delete, recreate, non-schedule edit) submitted through the real mutating webhook, interleaved in every order with informer deliveries (lag 0/1) and ticks of 1s/1.5s/5s; every tick's requests are judged against the schedule implied by the JobConfig version delivered to the controller, and an unchanged bystander JobConfig must keep its exact stream.",
@@ -57,7 +57,7 @@ CLAIMED.update({
    text="~43000 raw Job requests (every optional field absent/zero/set, configName none/existing/with options/missing, option values json/yaml/junk, explicit substitutions, labels, annotations, finalizers) and 48 JobConfig shapes x 8 update kinds: the returned patch applied to the raw request must equal the object the real patcher produces, re-admission must be a no-op, a per-field oracle checks finalizer/type/ttl/maxAttempts/pendingTimeout/restartPolicy defaults, configName expansion (template, ownerRef, UID label, policy default, substitution precedence) and lastUpdated stamping exactly on schedule creation/change.",
    note="Requests always contain a spec object. The raw requests are what a client submits; API-server side defaulting/pruning by the CRD schema is not modelled.", ref="4 C16"),
  "C17": dict(level="exploration", tech=ENUM + " (validator . mutator . cron scheduler . job builder . pod builder composed)",
-   text="~4000 cron expressions (every field atom * / 5 / */5 / 1-3 / 1,2 / H / H/5 / L / ? / junk over 5-7 fields, one field at a time plus pairs) x 16 cron dynamic configs, 16 timezones x 3 expressions, 800 option/parallelism/maxAttempts shapes: every JobConfig admission accepts must load in cronschedule.New next to a healthy JobConfig (which must stay scheduled), Bump, instantiate into a Job that passes real admission, and build a Pod for every index. Update immutability: 20 immutable edits alone, in all pairs and combined with a harmless edit, on 6 base Jobs (started x kill none/past/future), plus startPolicy and killTimestamp rules.",
+   text="~4000 cron expressions (every field atom * / 5 / */5 / 1-3 / 1,2 / H / H/5 / L / ? / junk over 5-7 fields, one field at a time plus pairs) x 16 cron dynamic configs, 16 timezones x 3 expressions, 800 option/parallelism/maxAttempts shapes: every JobConfig admission accepts must load in cronschedule.New next to a healthy JobConfig (which must stay scheduled), Bump, instantiate into a Job that passes real admission, and build a Pod for every index. Update immutability: 20 immutable edits alone, in all pairs and combined with a harmless edit, on 12 base Jobs (started x kill none/past/future x live/terminating), plus startPolicy and killTimestamp rules.",
    note="Finite grammar-bounded alphabet; boundary killTimestamp == now is not asserted either way.", ref="4 C17"),
  "C18": dict(level="exploration", tech=ENUM + "; Go map iteration order owned by folding single-entry calls of the real function over every permutation",
    text="All five option types x config variants (required, default present/absent/whitespace, trim, allowCustom, values, delimiter, bool formats, date formats) x 22 submitted values (absent, null, empty, valid, custom, wrong type, lists, variable syntax): evaluation must reject or yield exactly the reference value, and an absent value must equal MakeDefaultOptions. Substitution determinism: every map of 2-3 (thorough 4) entries over values containing other variables x 5 targets is folded in every order through the real SubstituteVariables; on every order-sensitive input the real multi-entry call must return one result over 64 repetitions. Precedence explicit > option value > JobConfig default > context is checked in the Pod built from a Job admitted by the real webhooks.",
@@ -85,6 +85,13 @@ CLAIMED["C04"]["text"] += " End to end: the cron worker, cron reconciler, queue/
 for _p in ("C03", "C05", "C09", "C15", "C16", "C19"):
     CLAIMED[_p]["tech"] += "; the thorough tier adds a separate free-running `go test -race` pass of the same bodies (real goroutines, work queues and informers over client-go fakes) that backs the explorer's scheduling-point assumption - auxiliary, sampled, a data race in the property's code is reported as monitor=data-race"
 CLAIMED["C01"]["tech"] = CLAIMED["C01"]["tech"].replace("(6 tick lengths, depth 5/6-7)", "(6 tick lengths, depth 5; thorough: breadth-first search over the states (instant, heap content, reference cursors) reached by 7 tick lengths to depth 7/8, every tick from every state, merged sequences re-validated against the recorded futures)")
+CLAIMED["C02"]["text"] += " One scenario puts furiko's own bookkeeping keys (schedule-time annotation, job-config-uid label) into the job template as user metadata."
+CLAIMED["C04"]["text"] += ' A second end-to-end workload has the user delete the newest scheduled Job (an older one remains) before the crash points: no schedule time may get a Job created a second time.'
+CLAIMED["C05"]["text"] += ' Cold-start restarts: after a restart the Job and JobConfig informers list in either order (notifications handled against a still-empty other cache), the store recovers afterwards, one resync round.'
+CLAIMED["C09"]["text"] += ' Also: cold-start restarts (informers listing one after the other), a task reaped for its pending timeout that finishes by itself and then disappears (its recorded final state must stay).'
+CLAIMED["C10"]["text"] += ' Includes a parallel Job with one bound Pod stuck terminating past the force-delete timeout while its sibling runs.'
+CLAIMED["C12"]["text"] += ' Includes kills of Jobs already finished by an admission error while recorded tasks of other indexes live (foreign Pod on the name of attempt 0 or of the first retry), and a parallel Job with a stuck Pod that is force-deleted.'
+CLAIMED["C15"]["text"] += ' Includes a cold-start restart (JobConfig and Job informers listing in either order).'
 CLAIMED["C04"]["note"] = "A crash before the first-ever schedule time was recorded loses that time by design (never scheduled => not back-scheduled); counted in the evidence, not reported."
 PENDING_REASON = "check not built yet in this session (planned, see DESIGN.md section 4)"
 
